@@ -81,7 +81,7 @@ class Report:
                 known_hit.append((k, self.known[(pid, k)], o))
             else:
                 viol.append(o)
-        ev_dir = os.path.join(VERIF, "evidence")
+        ev_dir = os.environ.get("VERIF_EVIDENCE_DIR") or os.path.join(VERIF, "evidence")
         rp_dir = os.path.join(ev_dir, "replay")
         os.makedirs(rp_dir, exist_ok=True)
         for k, what, o in known_hit:
